@@ -52,7 +52,7 @@ Definition mwaitc (w : N) (mask : N) : N * eflags :=
 (* ---------- waiter records (qthread_addrstat_t / qthread_addrres_t) ---------- *)
 (* one addrres: waiter task; X->addr = source of a blocked writeEF (w_val = the value at src), destination of a blocked readFF
    (w_dest = dest != NULL), &ret of a blocked readFE (w_dest = the caller's dest != NULL, used after the wake-up) *)
-Record waiter := mkW { w_tid : N; w_val : N; w_dest : bool }.
+(* Record waiter := { w_tid; w_val; w_dest }  is in Defs.v (shared with the abstract spec) *)
 Record addrstat := mkM { EFQ : list waiter; FEQ : list waiter; FFQ : list waiter }.
 Definition addrstat_new : addrstat := mkM [] [] [].
 (* a syncvar: the word + its entry in the syncvars[] hash (None = no entry) *)
